@@ -55,7 +55,8 @@ pub enum CIn {
     Result { tx: Option<u32>, raw_tx: f64, sid: Option<u32> },
     Error { tx: Option<u32>, raw_tx: f64 },
     /// code = None: malformed (no argument / not an object / no string code)
-    OnStatus { code: Option<String> },
+    /// msid = the message stream the status arrived on
+    OnStatus { code: Option<String>, msid: u32 },
     Audio { msid: u32, len: usize, hash: u64, ts: u32 },
     Video { msid: u32, len: usize, hash: u64, ts: u32 },
     /// `onMetaData`, object on message stream msid; meta = None when the shape is malformed
@@ -146,7 +147,7 @@ impl ClientModel {
                 _ => tx.is_none(),
             },
             CIn::Error { tx, .. } => matches!(tx.and_then(|t| self.pending.get(&t)), Some(Pend::Play { .. }) | Some(Pend::Publish { .. })) || tx.is_none(),
-            CIn::OnStatus { code } => match code.as_deref() {
+            CIn::OnStatus { code, .. } => match code.as_deref() {
                 None => true,
                 Some("NetStream.Play.Start") => self.st != CSt::PlayRequested,
                 Some("NetStream.Publish.Start") => self.st != CSt::PublishRequested,
@@ -232,13 +233,18 @@ impl ClientModel {
                     }
                 }
             },
-            CIn::OnStatus { code } => match code.as_deref() {
+            CIn::OnStatus { code, msid } => match code.as_deref() {
                 Some("NetStream.Play.Start") => {
                     if self.st == CSt::PlayRequested {
                         if outs.first() == Some(&COut::PlayAccepted) {
                             let mut m = self.clone();
                             m.st = CSt::Playing;
                             alts.push((1, m));
+                        }
+                        if self.active != Some(*msid) {
+                            // on another message stream than the one the request runs on: whether
+                            // that answers the request the statement does not say
+                            alts.extend(self.none());
                         }
                     } else {
                         alts.extend(self.none()); // F accepted event and state change
@@ -250,6 +256,9 @@ impl ClientModel {
                             let mut m = self.clone();
                             m.st = CSt::Publishing;
                             alts.push((1, m));
+                        }
+                        if self.active != Some(*msid) {
+                            alts.extend(self.none());
                         }
                     } else {
                         alts.extend(self.none());
